@@ -259,7 +259,10 @@ Bcast(t, rec) ==
                         \* rebroadcast_pending_claims ("detecting substantial mempool feerate changes") pays what
                         \* the fee estimator says now, or -- if the claimed value cannot afford that -- the feerate
                         \* that spends half of it (package.rs compute_fee_from_spent_amounts)
+                        \* (not the commitment transaction itself -- it spends the funding output, transaction 1 --
+                        \*  whose fee was fixed when it was signed and is topped up through its anchor)
                         Adequate == (/\ rec.by = rb.n /\ cins # {} /\ \A j \in 1..Len(rec.wal) : ~rec.wal[j]
+                                     /\ \A o \in cins : o[1] # 1
                                      /\ rec.inval >= Uneconomic
                                      /\ \A o \in cins : ~Spent(o)
                                      /\ \E e \in DOMAIN txs : txs[e].by = rec.by /\ ~txs[e].sweep /\ ChanIns(e) = cins)
